@@ -81,6 +81,17 @@ func CheckAck(a *inssvc.Analysis) error {
 		if !done {
 			continue
 		}
+		if writes == 0 {
+			// the handler returned without writing anything: net/http answers with an implicit 200
+			why := "its rows"
+			for _, e := range rq.Expect {
+				if a.Find(e, tick) == nil {
+					why = fmt.Sprintf("its row %s/%q is in no successful INSERT", e.Table, e.Marker)
+					break
+				}
+			}
+			return fmt.Errorf("http request %d (%s): the handler wrote no status at all, the client sees an implicit 200 OK; %s%s", rq.ID, rq.Proto, why, lastErrOf(a, rq.ID))
+		}
 		if writes != 1 {
 			return fmt.Errorf("http request %d (%s) wrote %d response headers, exactly one answer is expected", rq.ID, rq.Proto, writes)
 		}
@@ -115,13 +126,29 @@ func CheckAck(a *inssvc.Analysis) error {
 			}
 		}
 		if allFailed && status < 400 {
-			return fmt.Errorf("http request %d (%s): all %d attempts of its %s part failed, but the status is %d", rq.ID, rq.Proto, len(p.Subs), p.Kind, status)
+			_, lastErr, _ := p.Subs[len(p.Subs)-1].Answer()
+			return fmt.Errorf("http request %d (%s): all %d attempts of its %s part failed (last error, class %s: %v), but the status is %d",
+				rq.ID, rq.Proto, len(p.Subs), p.Kind, fakech.ClassOf(lastErr), lastErr, status)
 		}
 	}
 	if tr.Unanswered != "" {
 		return fmt.Errorf("no answer although the database accepts everything and every service was flushed: %s", tr.Unanswered)
 	}
 	return nil
+}
+
+func lastErrOf(a *inssvc.Analysis, reqID int) string {
+	for _, p := range a.Parts {
+		if p.ReqID != reqID {
+			continue
+		}
+		for i := len(p.Subs) - 1; i >= 0; i-- {
+			if ok, err, _ := p.Subs[i].Answer(); ok && err != nil {
+				return fmt.Sprintf(" (attempt %d of its %s part failed with class %s: %v)", i+1, p.Kind, fakech.ClassOf(err), err)
+			}
+		}
+	}
+	return ""
 }
 
 func anyOcc(a *inssvc.Analysis, e inssvc.Expect) *inssvc.Occ {
@@ -201,6 +228,43 @@ func Classify(a *inssvc.Analysis, o *evid.Obs) {
 	}
 	if failed > 0 {
 		o.Tag("insert-failed")
+	}
+	seenClass := map[string]bool{}
+	for _, c := range tr.Calls {
+		if c.Done && c.Err != nil {
+			if cl := fakech.ClassOf(c.Err); !seenClass[cl] {
+				seenClass[cl] = true
+				o.Tag("err:" + cl)
+			}
+		}
+	}
+	// HTTP pushes of which a part failed on every attempt, by the class of the last error
+	for _, p := range a.Parts {
+		rq := a.ReqByID[p.ReqID]
+		if rq == nil || !rq.HTTP || len(p.Subs) < tr.H.Cfg.RetryAttempts || len(p.Subs[0].Rows) == 0 {
+			continue
+		}
+		all := true
+		var last error
+		for _, s := range p.Subs {
+			ok, err, _ := s.Answer()
+			if !ok || err == nil {
+				all = false
+			}
+			last = err
+		}
+		if all {
+			o.Tag("http-retries-exhausted:" + fakech.ClassOf(last))
+		}
+	}
+	parts, retried := a.Chunked()
+	for id, n := range parts {
+		if n >= 2 {
+			o.Tag("http-body-chunked(>=2 requests)")
+			if retried[id] {
+				o.Tag("http-body-chunked+retried-part")
+			}
+		}
 	}
 	if retry {
 		o.Tag("retry")
